@@ -194,7 +194,7 @@ def run_lines(ctx, exe, lines, timeout):
                     cur = None
                 if cur is not None and not (0 <= cur < len(lines)):
                     cur = None
-            elif cur is not None and results[cur] is None and line[:2] in ("K ", "G ", "E ", "R ", "? "):
+            elif cur is not None and results[cur] is None and line[:2] in ("K ", "G ", "E ", "R ", "J ", "? "):
                 results[cur] = line
         if r.rc == 0 and not r.timed_out:
             break
